@@ -1,0 +1,8 @@
+//go:build !verif
+// +build !verif
+
+package tengo
+
+func verifProbe(v *VM) {}
+
+func verifKeepDead() bool { return false }
